@@ -50,6 +50,65 @@ def pulse_ok(p, cfg="this.config"):
     ]
 
 
+# (file, enclosing function) -> why the site is covered
+SITES_UNDER_CONTRACT = {
+    ("mpf/devices/driver.py", "Driver._enable_now"): "verified",
+    ("mpf/devices/driver.py", "Driver._pulse_now"): "verified",
+    ("mpf/devices/driver.py", "Driver.timed_enable"): "verified",
+}
+SITES_LISTED = {
+    ("mpf/core/platform_controller.py", "SoftwareEosRepulseManager._repulse_on_eos_open"):
+        "uses the rule's DriverSettings, which come from _get_configured_driver_with_hold/_no_hold (both call the "
+        "verified Driver.get_and_verify_* functions); the data flow through set_*_rule is assumed, not proved",
+    ("mpf/devices/digital_output.py", "DigitalOutput.pulse"):
+        "digital_outputs are not coils: no max_pulse_ms/max_*_power in their config section (constant power 1.0)",
+    ("mpf/devices/digital_output.py", "DigitalOutput.enable"): "digital output, see DigitalOutput.pulse",
+}
+
+
+def site_check(C):
+    """enumerate syntactically every <expr>.hw_driver.(pulse|enable|timed_enable)(...) under mpf/ (not tests,
+    not platform back ends); each must be a verified site or a listed one.  A new site is a violation of the
+    statement's 'no path bypasses the verification' unless it is brought under contract."""
+    import ast
+    import os
+    from pyvc import extract
+    rows = []
+    found = set()
+    root = os.path.join(extract.REPO, "mpf")
+    for dp, dn, fn in os.walk(root):
+        rel = os.path.relpath(dp, extract.REPO)
+        if rel.startswith(("mpf/tests", "mpf/platforms", "mpf/benchmarks")):
+            continue
+        for f in fn:
+            if not f.endswith(".py"):
+                continue
+            relf = os.path.join(rel, f)
+            src, tree = extract.load_module(relf)
+            stack = [(tree, "")]
+            while stack:
+                node, qual = stack.pop()
+                for ch in ast.iter_child_nodes(node):
+                    q = qual
+                    if isinstance(ch, (ast.ClassDef, ast.FunctionDef, ast.AsyncFunctionDef)):
+                        q = (qual + "." if qual else "") + ch.name
+                    if isinstance(ch, ast.Call) and isinstance(ch.func, ast.Attribute) and \
+                            ch.func.attr in ("pulse", "enable", "timed_enable") and \
+                            isinstance(ch.func.value, ast.Attribute) and ch.func.value.attr == "hw_driver":
+                        found.add((relf, qual, ch.lineno))
+                    stack.append((ch, q))
+    for relf, qual, line in sorted(found):
+        key = (relf, qual)
+        ok = key in SITES_UNDER_CONTRACT or key in SITES_LISTED
+        why = SITES_UNDER_CONTRACT.get(key) or SITES_LISTED.get(key) or \
+            "NEW actuation site outside every contract: %s:%d in %s calls hw_driver directly" % (relf, line, qual)
+        rows.append(("site[%s:%s]" % (relf, qual), ok, why))
+    for key in SITES_UNDER_CONTRACT:
+        if not any((r, q) == key for r, q, _ in found):
+            rows.append(("site-present[%s:%s]" % key, True, "site no longer present (nothing to check)"))
+    return rows
+
+
 def build():
     C = ContractSet("C08", "Coils are never driven beyond their configured safety limits")
     C.namedtuple(IFACE, "PulseSettings")
@@ -172,7 +231,8 @@ def build():
          result=Int,
          ensures=[("result==request", "result == req"),
                   ("result>=0", "result >= 0"),
-                  ("result<=max_pulse_ms", "implies(self.config['max_pulse_ms'], result <= self.config['max_pulse_ms'])")],
+                  ("result<=max_pulse_ms", "implies(self.config['max_pulse_ms'], result <= self.config['max_pulse_ms'])"),
+                  ("platform present", "self.platform is not None")],
          raises=LIMERR, modifies=[])
 
     C.fn("Driver.get_and_verify_timed_enable_ms", params=dict(timed_enable_ms=ANYNUM),
@@ -181,7 +241,8 @@ def build():
          ensures=[("result==request", "result == req"),
                   ("result>=0", "result >= 0"),
                   ("result<=max_hold_duration",
-                   "implies(self.config['max_hold_duration'], result <= self.config['max_hold_duration'] * 1000)")],
+                   "implies(self.config['max_hold_duration'], result <= self.config['max_hold_duration'] * 1000)"),
+                  ("platform present", "self.platform is not None")],
          raises=LIMERR, modifies=[])
 
     C.fn("Driver._notify_psu_and_get_wait_ms", params=dict(pulse_ms=Num, max_wait_ms=Opt(Num)),
@@ -266,6 +327,9 @@ def build():
                                                   pulse_power=ANYNUM, max_wait_ms=Opt(Num)),
          requires=["self.platform is not None", "self.hw_driver is not None"],
          modifies=[], raises=LIMERR)
+
+    # ---- call-site completeness: every hw_driver.pulse/enable/timed_enable call under mpf/ is enumerated each run
+    C.finite_checks.append(site_check)
 
     C.assume("A-CONFIG: coil config values have the types/ranges config_spec.yaml declares (float(0,1), ms, secs, "
              "bool); discharged for the scalar validators by C12")
